@@ -51,7 +51,7 @@ ASSUMPTIONS = [
 ]
 TIERS = {
     "quick": {"runs": 450, "chunk": 15},
-    "thorough": {"runs": 20000, "chunk": 120},
+    "thorough": {"runs": 20000, "chunk": 120, "chunk_timeout": 1800},
 }
 REACH_PROBES = ["name_changed_hands", "foreign_takeover_attempt", "call_in_flight_during_redefinition", "alias_form",
                 "two_decorators_form", "response_returned", "deleted_then_called", "reload_dropped_runtime_definitions",
@@ -509,7 +509,6 @@ def run(scn: dict) -> dict:
                     for k in list(slots):
                         model_remove(*k)
                     entry_loaded = False
-                    kind = "unload"
                 else:
                     g2 = None
                     if then == "delete":
@@ -528,7 +527,12 @@ def run(scn: dict) -> dict:
                     elif then == "define":
                         want.append(["defd", ctx, slot, g2])
                     if sorted(done, key=repr) != sorted(want, key=repr):
-                        raise RuntimeError(f"{tag}: life_{ctx} reported {done}, issued {want}")
+                        # each of the two overlapping calls of the script's own service must have run exactly once,
+                        # with its own data; what the script defined is unknown now, so the scenario ends here
+                        viol("C12.call_kwargs", {"form": "default", "overlap": True, "at": "life"},
+                             f"{tag}: two overlapping calls of pyscript.life_{ctx} were issued with (cmd, ctx, slot, gen) = "
+                             f"{want}; the script reports having done {done}")
+                        return
                     for what, _c, _s, gen_no in done:
                         if what == "del":
                             model_remove(ctx, slot)
